@@ -73,8 +73,15 @@ func init() {
 			return opaqueError(fr.i, "ErrMsg: "+args[0].(string))
 		},
 		"runtime.NumCPU": func(fr *frame, args []value) value {
-			if n, ok := fr.i.ex.Cases["numcpu"]; ok {
-				return int(n)
+			if fr.i.ex.cpus > 0 {
+				return fr.i.ex.cpus
+			}
+			return 2
+		},
+		// GOMAXPROCS(k) reports the processor count chosen by the harness (vfSetCPUs); it is not changed by k
+		"runtime.GOMAXPROCS": func(fr *frame, args []value) value {
+			if fr.i.ex.cpus > 0 {
+				return fr.i.ex.cpus
 			}
 			return 2
 		},
